@@ -85,6 +85,8 @@ fn main() {
     vh_common::quiet_panics();
     let out = vh_common::TraceOut::from_env();
     let cases = vh_common::read_input();
+    // the compile-time cap of this build (`max_level_*` features of tracing): 5 = none
+    let static_max = vh_common::rec::rank_of_filter(&tracing::level_filters::STATIC_MAX_LEVEL);
     for (n, c) in cases.iter().enumerate() {
         if n % 400 == 0 {
             out.emit(json!({"ev": "reset", "beh": n / 400}));
@@ -111,8 +113,8 @@ fn main() {
         });
         let calls = log.lock().unwrap().clone();
         match r {
-            Ok((evals, notes)) => out.emit(json!({"ev": "run", "n": n, "cs": cs, "mode": mode, "cap": c["cap"], "decl": c["decl"], "slots": c["slots"], "evals": evals, "notes": notes, "calls": calls})),
-            Err(e) => out.emit(json!({"ev": "run", "n": n, "cs": cs, "mode": mode, "cap": c["cap"], "decl": c["decl"], "slots": c["slots"], "evals": [], "notes": [], "calls": calls, "panic": e})),
+            Ok((evals, notes)) => out.emit(json!({"ev": "run", "static_max": static_max, "n": n, "cs": cs, "mode": mode, "cap": c["cap"], "decl": c["decl"], "slots": c["slots"], "evals": evals, "notes": notes, "calls": calls})),
+            Err(e) => out.emit(json!({"ev": "run", "static_max": static_max, "n": n, "cs": cs, "mode": mode, "cap": c["cap"], "decl": c["decl"], "slots": c["slots"], "evals": [], "notes": [], "calls": calls, "panic": e})),
         }
     }
 }
